@@ -215,6 +215,7 @@ class Fact:
 
 class Sym(Interp):
     name = "SYM"
+    SELF_COPY_NOOP = True
     model_partial = True
 
     def __init__(self, prog, inline=None):
